@@ -73,3 +73,13 @@ Theorem C04_compare_same_answer_text_or_binary : forall t1 t2 u1 u2 a b, wfb a =
   compare_w t1 u1 = compare_w t2 u2.
 Proof. intros t1 t2 u1 u2 a b Wa Wb S1 S2 X1 X2. exact (C11_compare_same_answer t1 t2 a Wa S1 S2 u1 u2 b Wb X1 X2). Qed.
 Print Assumptions C04_compare_same_answer_text_or_binary.
+
+(* ---- the recursion fuel of the compare walker model (ExtraFuel04.v) is never the reason for an answer, on ANY two
+   buffers (valid, truncated, corrupted, JSON text in either position): a nested container's header lies at least 4
+   bytes after its parent's and must be readable, every round of the array loop reads an entry word 4 bytes further on *)
+From JB Require Import Codec CompareWalk ExtraFuel04.
+Theorem C04_fuel_never_exhausted :
+  (forall l r, compare_w l r <> Err EFuel) /\ (forall L R, compare_b L R <> Err EFuel) /\
+  (forall fuel L R lw lo rw ro, lo <= lenN L -> lenN L < lo + N.of_nat fuel -> compare_scalar_w fuel L R lw lo rw ro <> Err EFuel).
+Proof. split; [exact compare_w_not_fuel|]. split; [exact compare_b_not_fuel|exact compare_scalar_w_fuel]. Qed.
+Print Assumptions C04_fuel_never_exhausted.
